@@ -76,7 +76,7 @@ func init() {
 }
 
 func runC01(c *fw.Ctx) {
-	forEachOutputTree(c, 4000, 200000, func(tree *spec.Spec, r *rng.R) {
+	forEachOutputTree(c, 4000, 2000000, func(tree *spec.Spec, r *rng.R) {
 		guard(c, func() string { return describeTree(tree) }, func() { c01Case(c, tree, r) })
 	})
 }
@@ -197,7 +197,7 @@ func checkJSONText(c *fw.Ctx, what string, text string, tree *spec.Spec, in func
 }
 
 func runC02(c *fw.Ctx) {
-	forEachOutputTree(c, 4000, 200000, func(tree *spec.Spec, r *rng.R) {
+	forEachOutputTree(c, 4000, 2000000, func(tree *spec.Spec, r *rng.R) {
 		guard(c, func() string { return describeTree(tree) }, func() {
 			noteTree(c, tree)
 			real := drive.Build(r, tree)
@@ -240,11 +240,11 @@ func selfC02(s *fw.SelfCheck) {
 // C16 FormatString
 
 func runC16(c *fw.Ctx) {
-	forEachOutputTree(c, 1000, 50000, func(tree *spec.Spec, r *rng.R) {
+	forEachOutputTree(c, 1000, 400000, func(tree *spec.Spec, r *rng.R) {
 		guard(c, func() string { return describeTree(tree) }, func() { c16Case(c, tree, r) })
 	})
 	// illegal indents on a few containers
-	c.Cases("illegal-indent", c.N(200, 5000), false, func(i int, r *rng.R) {
+	c.Cases("illegal-indent", c.N(200, 50000), false, func(i int, r *rng.R) {
 		tree := genTreeFor(r)
 		guard(c, func() string { return describeTree(tree) }, func() {
 			real := drive.Build(r, tree)
